@@ -26,6 +26,7 @@ import (
 	"go/parser"
 	"go/token"
 	"os"
+	"path/filepath"
 	"reflect"
 	"sort"
 	"strconv"
@@ -166,6 +167,11 @@ func runScalars() {
 		{"[]json.Number:1", []json.Number{"5"}}, {"[]bool:1", []bool{true}}, {"[]map[string]any:1", []map[string]any{{"a": 1}}},
 		{"[]float64:1", []float64{1.5}}, {"[]int64:1", []int64{7}}, {"[]int:2", []int{7, 8}}, {"[]uint64:1", []uint64{7}},
 		{"scalar", json.Number("5")}, {"map", map[string]any{"a": 1}}, {"[]string:0", []string{}},
+		// single values of every dynamic type the decoder / gqlparser / `dump` produce, incl. the "empty" ones
+		{"single:map:0", map[string]any{}}, {"single:map:2", map[string]any{"a": nil, "b": []any{}}}, {"single:string:0", ""}, {"single:string", "x"},
+		{"single:json.Number", json.Number("0")}, {"single:int:0", 0}, {"single:int64", int64(7)}, {"single:float64:0", 0.0}, {"single:bool:false", false},
+		{"single:bool:true", true}, {"[]any:0", []any{}}, {"[]any:1:nil", []any{nil}}, {"[]map[string]any:0", []map[string]any{}},
+		{"[]map[string]any:1:empty", []map[string]any{{}}}, {"[]json.Number:0", []json.Number{}}, {"[]bool:0", []bool{}}, {"[]any:1:[]", []any{[]any{}}},
 	}
 	for _, c := range cl {
 		fmt.Fprintf(out, "cl\t%s\t%d\n", c.name, len(graphql.CoerceList(c.v)))
@@ -562,12 +568,21 @@ func (g *G) value(t *TRef, depth int) *V {
 	if t.Elem != nil {
 		if g.r.Below(4) == 0 {
 			g.tag("single-to-list")
+			g.tag("single-to-list:" + g.kindOf(t))
 			return g.value(withNN(t.Elem), depth+1) // a single item (not null)
 		}
 		n := g.r.Below(4)
 		l := &V{K: "list", L: []*V{}}
 		for i := 0; i < n; i++ {
-			l.L = append(l.L, g.value(t.Elem, depth+1))
+			it := g.value(t.Elem, depth+1)
+			if it.K == "null" && t.Elem.Elem != nil && !t.Elem.NN && g.asVar && g.inval {
+				// a null item of a nested list inside a variable makes gqlparser's validator panic (finding F02e). In the
+				// INVALID stream the same variable may also hold a value that gqlparser only rejects late (an enum in
+				// another case, a float for a custom scalar): which of the two refusals comes first is then decided by
+				// gqlparser's leniency, not by the specification. Keep F02e to the valid stream and the directed cases.
+				it = &V{K: "list", L: []*V{}}
+			}
+			l.L = append(l.L, it)
 		}
 		if n == 0 {
 			g.tag("empty-list")
@@ -583,6 +598,14 @@ func (g *G) value(t *TRef, depth int) *V {
 		return vEnum(td.Values[g.r.Below(len(td.Values))])
 	case "input":
 		o := &V{K: "obj", F: []KV{}}
+		if g.allOptional(td) && g.r.Below(5) == 0 {
+			// the empty object: valid for an input type whose fields are all nullable or defaulted
+			g.tag("empty-object")
+			if td.IsMap {
+				g.tag("map-backed")
+			}
+			return o
+		}
 		for _, f := range td.Fields {
 			required := f.Type.NN && f.Default == nil
 			if !required {
@@ -972,6 +995,213 @@ func (g *G) directedMethods(emit func(tags []string, f64 bool, uses ...use)) {
 	}
 }
 
+// allOptional: every field of the input type is nullable or has a default, so `{}` is a valid value of it
+func (g *G) allOptional(td *TypeJ) bool {
+	for _, f := range td.Fields {
+		if f.Type.NN && f.Default == nil {
+			return false
+		}
+	}
+	return true
+}
+
+// kindOf: the kind of the innermost item of a list type (scalar name / enum / input / input-all-optional / map-input)
+func (g *G) kindOf(t *TRef) string {
+	depth := 0
+	for t.Elem != nil {
+		t = t.Elem
+		depth++
+	}
+	k := t.Name
+	if td := g.types[t.Name]; td != nil {
+		switch {
+		case td.Kind == "enum":
+			k = "enum"
+		case td.Kind == "input" && td.IsMap:
+			k = "map-input"
+		case td.Kind == "input" && g.allOptional(td):
+			k = "input-all-optional"
+		case td.Kind == "input":
+			k = "input"
+		}
+	}
+	if depth > 1 {
+		k += fmt.Sprintf("/depth%d", depth)
+	}
+	return k
+}
+
+// required: the object holding only the fields an input type requires (`{}` when it requires none)
+func (g *G) required(td *TypeJ, k int) *V {
+	o := vObj()
+	o.F = []KV{}
+	for _, f := range td.Fields {
+		if f.Type.NN && f.Default == nil {
+			o.F = append(o.F, KV{f.Name, g.singleOf(f.Type, k)[0]})
+		}
+	}
+	return o
+}
+
+// singleOf: single (non-list, non-null) values of the innermost item type of t. Input objects: the object with
+// only the required fields - the EMPTY object when nothing is required -, and that object plus each optional
+// non-input field in turn (a scalar / enum / list field, written as a single value too).
+func (g *G) singleOf(t *TRef, k int) []*V {
+	for t.Elem != nil {
+		t = t.Elem
+	}
+	td := g.types[t.Name]
+	if td == nil || td.Kind != "input" {
+		return []*V{g.distinctVal(t, k)}
+	}
+	base := g.required(td, k)
+	out := []*V{base}
+	n := 0
+	for _, f := range td.Fields {
+		if f.Type.NN && f.Default == nil {
+			continue
+		}
+		if ft := g.types[baseName(f.Type)]; ft != nil && ft.Kind == "input" {
+			continue
+		}
+		if n++; n > 2 {
+			break
+		}
+		o := vObj(append(append([]KV{}, base.F...), KV{f.Name, g.singleOf(f.Type, k+n)[0]})...)
+		out = append(out, o)
+	}
+	// ... and plus the first list-of-input-objects field, given as a single object (a single value inside a single value)
+	for _, f := range td.Fields {
+		ft := g.types[baseName(f.Type)]
+		if f.Type.Elem == nil || ft == nil || ft.Kind != "input" || ft.IsMap || ft.Name == td.Name {
+			continue
+		}
+		out = append(out, vObj(append(append([]KV{}, base.F...), KV{f.Name, g.required(ft, k+3)})...))
+		break
+	}
+	return out
+}
+
+func listDepth(t *TRef) int {
+	d := 0
+	for t.Elem != nil {
+		t = t.Elem
+		d++
+	}
+	return d
+}
+
+// listForms: the ways of writing the one-item list [..[s]..] of depth d: s itself, [s], [[s]], ... (every prefix of
+// the brackets may be left out: single value -> list applies at every level), and the empty list
+func listForms(s *V, d int) []*V {
+	out := []*V{s}
+	cur := s
+	for i := 0; i < d; i++ {
+		cur = vList(cur)
+		out = append(out, cur)
+	}
+	return append(out, &V{K: "list", L: []*V{}})
+}
+
+// directedLists: single value -> list, systematically: EVERY list-typed argument of every resolver and EVERY
+// list-typed field of every input type that is an argument's type, for every single value of singleOf (scalars,
+// enums, input objects incl. the empty object and objects whose fields all have defaults, items of nested lists),
+// written as the bare item, wrapped at every depth and as the empty list; as a literal, as a variable of the whole
+// argument and - for input fields - as a variable standing at the field.
+func (g *G) directedLists(emit func(tags []string, f64 bool, uses ...use)) {
+	for i := range g.s.Fields {
+		res := &g.s.Fields[i]
+		if res.Bound == "method" {
+			continue
+		}
+		// the other required arguments of the field
+		others := func(skip string) []KV {
+			var kvs []KV
+			for _, a := range res.Args {
+				if a.Name != skip && a.Type.NN && a.Default == nil {
+					kvs = append(kvs, KV{a.Name, g.singleOf(a.Type, 7)[0]})
+				}
+			}
+			return kvs
+		}
+		for _, a := range res.Args {
+			td := g.types[baseName(a.Type)]
+			if td != nil && td.IsMap {
+				continue // a list of map-backed inputs is finding F02c whatever the value; MapIn's own list fields are covered below
+			}
+			if a.Type.Elem != nil {
+				kind := g.kindOf(a.Type)
+				for si, s := range g.singleOf(a.Type, 0) {
+					for fi, form := range listForms(s, listDepth(a.Type)) {
+						if si > 0 && fi == listDepth(a.Type)+1 {
+							continue // the empty list once
+						}
+						tags := []string{"directed-lists", "argument-list", "single-to-list:" + kind}
+						if fi == 0 {
+							tags = append(tags, "single-to-list")
+						}
+						if s.K == "obj" && len(s.F) == 0 && fi <= listDepth(a.Type) {
+							tags = append(tags, "empty-object")
+						}
+						emit(append([]string{"literal"}, tags...), false, use{res: res, args: append(others(a.Name), KV{a.Name, form})})
+						emit(append([]string{"variable"}, tags...), false, use{res: res, args: append(others(a.Name), KV{a.Name, g.mkVar("x", a.Type, nil, 0, form)})})
+					}
+				}
+				// omitted: the argument's default (possibly a single value for the list), and a variable's default
+				if !a.Type.NN || a.Default != nil {
+					emit([]string{"directed-lists", "argument-list", "argument-omitted"}, false, use{res: res, args: others(a.Name)})
+					s := g.singleOf(a.Type, 3)[0]
+					emit([]string{"directed-lists", "argument-list", "var-default", "absent-variable", "single-to-list"}, false,
+						use{res: res, args: append(others(a.Name), KV{a.Name, g.mkVar("x", a.Type.nullable(), s, 1, nil)})})
+				}
+				continue
+			}
+			if td == nil || td.Kind != "input" || a.Type.Elem != nil {
+				continue
+			}
+			// list-typed fields of the argument's input type
+			base := g.required(td, 5)
+			obj := func(kv ...KV) *V { return vObj(append(append([]KV{}, base.F...), kv...)...) }
+			emit([]string{"directed-lists", "input-field-list", "default-injected", "literal"}, false, use{res: res, args: append(others(a.Name), KV{a.Name, obj()})})
+			emit([]string{"directed-lists", "input-field-list", "default-injected", "variable"}, false,
+				use{res: res, args: append(others(a.Name), KV{a.Name, g.mkVar("x", a.Type, nil, 0, obj())})})
+			for _, f := range td.Fields {
+				if f.Type.Elem == nil {
+					continue
+				}
+				if ft := g.types[baseName(f.Type)]; ft != nil && ft.IsMap {
+					continue
+				}
+				kind := g.kindOf(f.Type)
+				for si, s := range g.singleOf(f.Type, 1) {
+					for fi, form := range listForms(s, listDepth(f.Type)) {
+						if si > 0 && fi == listDepth(f.Type)+1 {
+							continue
+						}
+						tags := []string{"directed-lists", "input-field-list", "single-to-list:" + kind}
+						if fi == 0 {
+							tags = append(tags, "single-to-list")
+						}
+						if s.K == "obj" && len(s.F) == 0 && fi <= listDepth(f.Type) {
+							tags = append(tags, "empty-object")
+						}
+						emit(append([]string{"literal"}, tags...), false, use{res: res, args: append(others(a.Name), KV{a.Name, obj(KV{f.Name, form})})})
+						emit(append([]string{"variable"}, tags...), false,
+							use{res: res, args: append(others(a.Name), KV{a.Name, g.mkVar("x", a.Type, nil, 0, obj(KV{f.Name, form}))})})
+						emit(append([]string{"variable", "nested-variable"}, tags...), false,
+							use{res: res, args: append(others(a.Name), KV{a.Name, obj(KV{f.Name, g.mkVar("x", f.Type, nil, 0, form)})})})
+					}
+				}
+				// explicit null for a list field with a default: the default must not be applied
+				if f.Default != nil && !f.Type.NN {
+					emit([]string{"directed-lists", "input-field-list", "explicit-null", "literal"}, false,
+						use{res: res, args: append(others(a.Name), KV{a.Name, obj(KV{f.Name, vNull()})})})
+				}
+			}
+		}
+	}
+}
+
 func (g *G) find(obj, name string) *ResolverJ {
 	for i := range g.s.Fields {
 		if g.s.Fields[i].Obj == obj && g.s.Fields[i].Name == name {
@@ -1008,6 +1238,7 @@ func (g *G) directed() []CaseJ {
 	if !g.has("Query", "int") {
 		return out // not the main coercion probe (go/probes/coercemt): only the method-bound fields
 	}
+	g.directedLists(emit)
 	q := func(name string, args ...KV) use { return use{res: g.find("Query", name), args: args} }
 	// boundary integers on every integer scalar, as literal / json.Number variable / string variable
 	ints := map[string]string{"int": "Int", "intNN": "Int", "i32": "Int32", "i64": "Int64", "u": "Uint", "u32": "Uint32", "u64": "Uint64",
@@ -1170,7 +1401,125 @@ func (g *G) directed() []CaseJ {
 	return out
 }
 
-func runGen(schemaPath string, seed uint64, n int) {
+// ---------------------------------------------------------------------------------------------- corpus
+
+// parseType: "[[Item!]]!" -> TRef
+func parseType(s string) *TRef {
+	s = strings.TrimSpace(s)
+	nn := strings.HasSuffix(s, "!")
+	if nn {
+		s = s[:len(s)-1]
+	}
+	if strings.HasPrefix(s, "[") && strings.HasSuffix(s, "]") {
+		return &TRef{Elem: parseType(s[1 : len(s)-1]), NN: nn}
+	}
+	return &TRef{Name: s, NN: nn}
+}
+
+// corpusValue: decoded JSON (UseNumber) -> V. {"$enum": "RED"} is an enum literal; {"$var": "[Item!]", "value": …}
+// (optionally "default": …, "state": "absent" | "null") puts a variable of that declared type at the position.
+func (g *G) corpusValue(x any) *V {
+	switch x := x.(type) {
+	case nil:
+		return vNull()
+	case bool:
+		return vBool(x)
+	case json.Number:
+		if strings.ContainsAny(string(x), ".eE") {
+			return vFloat(string(x))
+		}
+		return vInt(string(x))
+	case string:
+		return vStr(x)
+	case []any:
+		l := &V{K: "list", L: []*V{}}
+		for _, e := range x {
+			l.L = append(l.L, g.corpusValue(e))
+		}
+		return l
+	case map[string]any:
+		if e, ok := x["$enum"].(string); ok {
+			return vEnum(e)
+		}
+		if t, ok := x["$var"].(string); ok {
+			g.nvar++
+			var d *V
+			if dv, ok := x["default"]; ok {
+				d = g.corpusValue(dv)
+			}
+			st := map[any]int{"absent": 1, "null": 2}[x["state"]]
+			var val *V
+			if st == 0 {
+				val = g.corpusValue(x["value"])
+			}
+			return g.mkVar(fmt.Sprintf("c%d", g.nvar), parseType(t), d, st, val)
+		}
+		keys := make([]string, 0, len(x))
+		for k := range x {
+			keys = append(keys, k)
+		}
+		sort.Strings(keys)
+		o := &V{K: "obj", F: []KV{}}
+		for _, k := range keys {
+			o.F = append(o.F, KV{k, g.corpusValue(x[k])})
+		}
+		return o
+	}
+	panic(fmt.Sprintf("corpus value %T", x))
+}
+
+// corpus: the directed operations kept in /verif/corpus/C02/*.jsonl (one selection per line:
+// {"name", "obj", "field", "args": {arg: value}}); lines naming a field the probe schema does not have are skipped.
+func (g *G) corpus(dir string) []CaseJ {
+	var out []CaseJ
+	files, _ := filepath.Glob(filepath.Join(dir, "*.jsonl"))
+	sort.Strings(files)
+	n := 0
+	for _, f := range files {
+		b, err := os.ReadFile(f)
+		if err != nil {
+			panic(err)
+		}
+		for ln, line := range strings.Split(string(b), "\n") {
+			if strings.TrimSpace(line) == "" || strings.HasPrefix(line, "#") {
+				continue
+			}
+			var c struct {
+				Name  string         `json:"name"`
+				Obj   string         `json:"obj"`
+				Field string         `json:"field"`
+				Args  map[string]any `json:"args"`
+			}
+			dec := json.NewDecoder(strings.NewReader(line))
+			dec.UseNumber()
+			if err := dec.Decode(&c); err != nil {
+				panic(fmt.Sprintf("%s:%d: %v", f, ln+1, err))
+			}
+			if c.Obj == "" {
+				c.Obj = "Query"
+			}
+			if !g.has(c.Obj, c.Field) {
+				continue
+			}
+			g.reset(false)
+			res := g.find(c.Obj, c.Field)
+			u := use{res: res}
+			for _, a := range res.Args { // schema order
+				if v, ok := c.Args[a.Name]; ok {
+					u.args = append(u.args, KV{a.Name, g.corpusValue(v)})
+				}
+			}
+			g.tag("corpus")
+			g.tag("corpus:" + strings.TrimSuffix(filepath.Base(f), ".jsonl"))
+			out = append(out, g.build(fmt.Sprintf("c%d", n), []use{u}, false))
+			n++
+		}
+	}
+	g.reset(false)
+	return out
+}
+
+func runGen(schemaPath string, seed uint64, n int, corpusDir string) {
 	b, err := os.ReadFile(schemaPath)
 	if err != nil {
 		panic(err)
@@ -1184,6 +1533,11 @@ func runGen(schemaPath string, seed uint64, n int) {
 	}
 	enc := json.NewEncoder(out)
 	enc.SetEscapeHTML(false)
+	if corpusDir != "" {
+		for _, c := range g.corpus(corpusDir) {
+			enc.Encode(c)
+		}
+	}
 	for _, c := range g.directed() {
 		enc.Encode(c)
 	}
@@ -1259,13 +1613,14 @@ func main() {
 	schema := flag.String("schema", "", "")
 	seed := flag.Uint64("seed", 1, "")
 	n := flag.Int("n", 500, "")
+	corpusDir := flag.String("corpus", "", "directory of directed operations (*.jsonl) run before the generated ones")
 	flag.Parse()
 	defer out.Flush()
 	switch *mode {
 	case "scalars":
 		runScalars()
 	case "gen":
-		runGen(*schema, *seed, *n)
+		runGen(*schema, *seed, *n, *corpusDir)
 	case "methods":
 		runMethods(*file)
 	}
